@@ -452,6 +452,8 @@ class Engine:
             return ("none",)
         if hasattr(v, "pieces"):
             return ("fmtargs", id(v))
+        if hasattr(v, "ikind"):
+            return ("iter", id(v))
         if hasattr(v, "kind") and hasattr(v, "val"):
             return ("fmtarg", v.kind, self.term(v.val))
         return ("?", repr(v))
@@ -1703,10 +1705,7 @@ DIVERGE = object()
 
 
 def norm_path(p):
-    for a in ("std::", "alloc::"):
-        if p.startswith(a):
-            p = "core::" + p[len(a):]
-    return p.replace("<impl std::", "<impl core::").replace(" for std::", " for core::").replace("<std::", "<core::")
+    return p.replace("std::", "core::").replace("alloc::", "core::")
 
 
 def _pkey(e):
